@@ -18,7 +18,7 @@ func c12Items(r *fw.Rand, n int, tag string, span int) []*astisub.Item {
 	items := make([]*astisub.Item, n)
 	for k := range items {
 		s := int64(r.Intn(span))
-		items[k] = textItem(time.Duration(s), time.Duration(s+int64(r.Intn(5))), fmt.Sprintf("%s%d", tag, k))
+		items[k] = decorate(textItem(time.Duration(s), time.Duration(s+int64(r.Intn(5))), fmt.Sprintf("%s%d", tag, k)), k+r.Intn(3))
 	}
 	return items
 }
@@ -59,9 +59,15 @@ func c12MakeDefs(r *fw.Rand, owner string, ids []string) c12Defs {
 	for _, id := range ids {
 		if r.Bool() {
 			d.regions[id] = &astisub.Region{ID: id, InlineStyle: &astisub.StyleAttributes{WebVTTWidth: owner}}
+			if r.P(1, 4) {
+				d.regions[id].InlineStyle = nil // a bare definition (an identifier and nothing else) is a definition too
+			}
 		}
 		if r.Bool() {
 			d.styles[id] = &astisub.Style{ID: id, InlineStyle: &astisub.StyleAttributes{SSAFontName: owner}}
+			if r.P(1, 4) {
+				d.styles[id].InlineStyle = nil
+			}
 		}
 	}
 	// regions rely on styles of their own list, styles inherit from styles of their own list (sorted keys: deterministic)
